@@ -233,9 +233,10 @@ def execute_diff(ops, ctx, nontrivial_key, flag_check=None, env=None, jobs=None)
     bodies, checks the driver's self-check flags.  Returns the result dict ./check expects."""
     lines = [o for o, _ in ops]
     t0 = time.time()
+    tmo = 900 if ctx.get("tier") != "thorough" else 5400
     with ThreadPoolExecutor(max_workers=2) as ex:
-        fg = ex.submit(run_ops, ctx["harness"], lines, jobs, env)
-        fl = ex.submit(run_ops, ctx["driver"], lines, jobs, None)
+        fg = ex.submit(run_ops, ctx["harness"], lines, jobs, env, tmo)
+        fl = ex.submit(run_ops, ctx["driver"], lines, jobs, None, tmo)
         go, lean = fg.result(), fl.result()
     mism, nontriv, dist, samples = [], set(), {}, []
     for (line, meta), g, l in zip(ops, go, lean):
